@@ -188,6 +188,16 @@ impl SubCheck for Text {
             prop_oneof![
                 2 => ".{0,12}",
                 1 => "[a-zA-Z]{2,10}",
+                // concatenated name pieces (names, three-letter heads, long-name tails) in random letter case
+                2 => (proptest::collection::vec((0usize..38, 0u8..3), 1..=4), any::<u32>()).prop_map(|(ps, mask)| {
+                    let all: Vec<&'static str> = WD_SHORT.iter().chain(WD_LONG.iter()).chain(MO_SHORT.iter()).chain(MO_LONG.iter()).copied().collect();
+                    let mut out = String::new();
+                    for (i, k) in ps {
+                        let n = all[i % all.len()];
+                        out.push_str(match k { 0 => n, 1 => &n[..n.len().min(3)], _ => &n[n.len().min(3)..] });
+                    }
+                    out.chars().enumerate().map(|(i, c)| if mask >> (i % 32) & 1 == 1 { c.to_ascii_uppercase() } else { c.to_ascii_lowercase() }).collect()
+                }),
                 3 => (proptest::sample::select(names), any::<u16>()).prop_map(|(n, mask)| case_mask(n, mask)),
                 4 => (proptest::sample::select(n2), any::<u16>(), 0usize..12, any::<char>(), 0u8..5).prop_map(|(n, mask, pos, ch, op)| {
                     let mut cs: Vec<char> = case_mask(n, mask).chars().collect();
@@ -487,6 +497,18 @@ pub fn run(ctx: &Ctx) {
         for c in (b'a'..=b'z').chain(b'A'..=b'Z').chain(*b" 0-.") {
             v.push(format!("{n}{}", c as char));
             v.push(format!("{}{n}", c as char));
+        }
+        // a name followed by (a repetition of) a name or of the tail that turns a short name into a long one
+        for other in names.iter() {
+            for piece in [other.to_string(), other[other.len().min(3)..].to_string()] {
+                if piece.is_empty() { continue; }
+                for reps in 1..=3 {
+                    let tail = piece.repeat(reps);
+                    v.push(format!("{n}{tail}"));
+                    v.push(format!("{}{}", n.to_ascii_uppercase(), tail));
+                    v.push(format!("{n}{}", tail.to_ascii_uppercase()));
+                }
+            }
         }
         v.into_iter()
     }, false, false);
